@@ -78,14 +78,16 @@ package plenccore
 //@   safety C18
 //@   assigns nothing
 //@   requires[C18,C08] 0 <= wt && wt <= 5
-//@   requires[C18,C08] 0 <= index && index < (1 << 60)
+//@   requires[C18,C08] 0 <= index
+//@   requires[C18,C08] index < (1 << 60)
 //@   ensures[C18,C05] result == vlen(tagval(uint8(wt), index))
 
 //@ func plenccore.AppendTag
 //@   safety C18 C11
 //@   assigns nothing
 //@   requires[C18,C08] 0 <= wt && wt <= 5
-//@   requires[C18,C08] 0 <= index && index < (1 << 60)
+//@   requires[C18,C08] 0 <= index
+//@   requires[C18,C08] index < (1 << 60)
 //@   appends[C18,C02,C05,C06,C11] data venc(tagval(uint8(wt), index))
 
 //@ func plenccore.Skip
